@@ -359,11 +359,29 @@ func c08Stream(r *eng.Run) {
 	if !closed {
 		nfrag := 1 + r.T.Int(sim.LNFrag, 3)
 		msg = &Msg{Op: ref.OpBinary}
+		// Or a text message: valid UTF-8 as a whole, fragment boundaries
+		// anywhere (also inside a multi-byte character), so that a control
+		// frame can sit in the middle of a character.
+		var text []byte
+		if r.T.Bool(sim.LOp) {
+			msg.Op = ref.OpText
+			for len(text) < 3*nfrag+r.T.Int(sim.LLen, 30) {
+				text = append(text, []string{"a", "\u00e9", "\u20ac", "\U0001F600"}[r.T.Int(sim.LUTF8, 4)]...)
+			}
+			r.Probe("control_frames_around_text_message")
+		}
 		for k := 0; k < nfrag && !closed; k++ {
 			pl := patBytes(uint32(k+1), 0, r.T.Int(sim.LLen, 30))
+			if msg.Op == ref.OpText {
+				n := r.T.Int(sim.LLen, len(text)+1)
+				if k == nfrag-1 {
+					n = len(text)
+				}
+				pl, text = append([]byte(nil), text[:n]...), text[n:]
+			}
 			df := &ref.Frame{Op: ref.OpCont, Fin: k == nfrag-1, Payload: pl}
 			if k == 0 {
-				df.Op = ref.OpBinary
+				df.Op = msg.Op
 			}
 			if side == ref.Server {
 				df.Masked, df.Mask = true, drawMask(r)
@@ -385,7 +403,27 @@ func c08Stream(r *eng.Run) {
 	p := NewPipe(r, wire)
 	p.Marks = MarksOf(frames)
 	p.SegMode = DrawSeg(r)
-	r.Note("C08 %s side=%d seg=%d stream: %s", r.Entry(), side, p.SegMode, (&Stream{Frames: frames}).Describe())
+	p.EOFWithData = r.T.Chance(sim.LFault, 1, 4) // the last bytes arrive together with io.EOF
+	if mode != 0 && r.T.Chance(sim.LHist, 1, 4) {
+		// An earlier connection of the same process, read with the same
+		// helper, ended inside a text message that is not valid UTF-8.
+		bad := &ref.Frame{Op: ref.OpText, Fin: true, Payload: [][]byte{{0xe2, 0x82}, {'o', 'k', 0xf0, 0x9f}, {0xff}, {0xc3}}[r.T.Int(sim.LUTF8, 4)]}
+		if side == ref.Server {
+			bad.Masked, bad.Mask = true, drawMask(r)
+		}
+		q := NewPipe(r, ref.Encode([]*ref.Frame{bad}))
+		var perr error
+		if mode == 1 {
+			_, perr = wsutil.ReadMessage(q, sideState(side), nil)
+		} else {
+			_, _, perr = wsutil.ReadData(q, sideState(side))
+		}
+		if perr == nil {
+			r.FailProp("C07", "invalid_text_delivered", "%s: invalid text message %x on an earlier connection was returned as complete", r.Entry(), bad.Payload)
+		}
+		r.Probe("earlier_connection_ended_in_invalid_text")
+	}
+	r.Note("C08 %s side=%d seg=%d eofWithData=%v stream: %s", r.Entry(), side, p.SegMode, p.EOFWithData, (&Stream{Frames: frames}).Describe())
 	r.Res.Nontrivial = len(ctrls) > 0
 
 	var exps []ctrlExp
